@@ -674,8 +674,18 @@ class MarkdownNormalizer(Renderer):
         title = f" {link_title}" if link_title is not None else ""
         return f"[{link_text}]({_format_link_dest(element.dest)}{title})"
 
+    def _autolink_text(self, element: inline.AutoLink) -> str:
+        """
+        The autolink as written. The parser's `dest` is the computed destination
+        (`mailto:` added to an e-mail address, `http://` to a `www.` link).
+        """
+        children = element.children
+        if isinstance(children, list) and len(children) == 1 and isinstance(children[0], inline.RawText):
+            return cast(str, children[0].children)
+        return element.dest
+
     def render_auto_link(self, element: inline.AutoLink) -> str:
-        return f"<{element.dest}>"
+        return f"<{self._autolink_text(element)}>"
 
     def render_image(self, element: inline.Image) -> str:
         template = "![{}]({}{})"
@@ -832,7 +842,7 @@ class MarkdownNormalizer(Renderer):
 
     def render_url(self, element: gfm_elements.Url) -> str:
         """For GFM autolink URLs, just output the URL directly."""
-        return element.dest
+        return self._autolink_text(element)
 
     def render_alert(
         self,
